@@ -26,3 +26,349 @@ Proof.
       intros (_&_&->&_&_). reflexivity.
     + split; [discriminate|]. intros (_&_&->&H1&_). lia.
 Qed.
+
+(** * UTF-8: byte order of encodings is code-point order. *)
+Ltac Zify.zify_post_hook ::= Z.div_mod_to_equations.
+
+Ltac decide_if :=
+  match goal with
+  | |- context [if ?b then _ else _] =>
+      first [ replace b with true by lia | replace b with false by lia ]
+  end.
+
+Lemma enc_cp_lt c d x y :
+  c < d -> d < 1114112 -> str_ltb (enc_cp c ++ x) (enc_cp d ++ y) = true.
+Proof.
+  intros Hlt Hd. unfold enc_cp.
+  destruct (N.ltb_spec c 128); destruct (N.ltb_spec d 128);
+  destruct (N.ltb_spec c 2048); destruct (N.ltb_spec d 2048);
+  destruct (N.ltb_spec c 65536); destruct (N.ltb_spec d 65536); try lia;
+  cbn [app str_ltb]; repeat decide_if; try reflexivity;
+  repeat match goal with |- context [if ?b then _ else _] => destruct b eqn:? end;
+  try reflexivity; exfalso; lia.
+Qed.
+
+Lemma str_ltb_app_same p x y : str_ltb (p ++ x) (p ++ y) = str_ltb x y.
+Proof.
+  induction p as [|b p IH]; cbn [app str_ltb]; [reflexivity|].
+  now rewrite N.ltb_irrefl, N.eqb_refl.
+Qed.
+
+Lemma enc_cp_nonempty c : exists b r, enc_cp c = b :: r.
+Proof. unfold enc_cp. destruct (c <? 128), (c <? 2048), (c <? 65536); eauto. Qed.
+
+Definition cps_ok (s : list N) : Prop := Forall (fun c => c < 1114112) s.
+
+Lemma scalar_lt c : scalar c = true -> c < 1114112.
+Proof. unfold scalar. lia. Qed.
+
+Lemma forallb_scalar_ok s : forallb scalar s = true -> cps_ok s.
+Proof.
+  intros H. apply Forall_forall. intros c Hc. rewrite forallb_forall in H. apply scalar_lt, H, Hc.
+Qed.
+
+Lemma enc_str_ltb a : forall b, cps_ok a -> cps_ok b ->
+  str_ltb (enc_str a) (enc_str b) = cp_ltb a b.
+Proof.
+  unfold cp_ltb, enc_str.
+  induction a as [|c a IH]; intros [|d b] Ha Hb; cbn [flat_map str_ltb].
+  - reflexivity.
+  - destruct (enc_cp_nonempty d) as [x [r ->]]. reflexivity.
+  - destruct (enc_cp_nonempty c) as [x [r ->]]. reflexivity.
+  - inversion Ha as [|? ? Hc Ha']; inversion Hb as [|? ? Hd Hb']; subst.
+    destruct (N.ltb_spec c d) as [Hlt|Hge].
+    + apply enc_cp_lt; assumption.
+    + destruct (N.eqb_spec c d) as [->|Hne].
+      * rewrite str_ltb_app_same. apply IH; assumption.
+      * apply str_ltb_asym. apply enc_cp_lt; [lia|assumption].
+Qed.
+
+Lemma enc_str_inj a b : cps_ok a -> cps_ok b -> enc_str a = enc_str b -> a = b.
+Proof.
+  intros Ha Hb E. apply str_ltb_total.
+  - change (cp_ltb a b = false). rewrite <- (enc_str_ltb a b Ha Hb), E. apply str_ltb_irrefl.
+  - change (cp_ltb b a = false). rewrite <- (enc_str_ltb b a Hb Ha), E. apply str_ltb_irrefl.
+Qed.
+
+Lemma enc_str_eqb a b : cps_ok a -> cps_ok b -> str_eqb (enc_str a) (enc_str b) = str_eqb a b.
+Proof.
+  intros Ha Hb. destruct (str_eqb_spec a b) as [->|Hne]; [apply str_eqb_refl|].
+  apply str_eqb_neq. intros E. apply Hne. now apply enc_str_inj.
+Qed.
+
+(** * Strings: the byte-level escaper on UTF-8 equals the spec's per-scalar escaping. *)
+Lemma hexdigit_hexd n : hexdigit n = hexd n.
+Proof. reflexivity. Qed.
+
+Lemma escape_enc_cp c : c < 1114112 -> flat_map escape_byte (enc_cp c) = spec_escape c.
+Proof.
+  intros Hc. unfold spec_escape, enc_cp.
+  destruct (N.ltb_spec c 128) as [H1|H1].
+  - cbn [flat_map]. rewrite app_nil_r. unfold escape_byte. reflexivity.
+  - replace (c =? 34) with false by lia. replace (c =? 92) with false by lia.
+    replace (c =? 8) with false by lia. replace (c =? 9) with false by lia.
+    replace (c =? 10) with false by lia. replace (c =? 12) with false by lia.
+    replace (c =? 13) with false by lia. replace (c <? 32) with false by lia.
+    assert (Hb : forall b, 128 <= b -> escape_byte b = [b]).
+    { intros b Hb. unfold escape_byte.
+      replace (b =? 34) with false by lia. replace (b =? 92) with false by lia.
+      replace (b =? 8) with false by lia. replace (b =? 9) with false by lia.
+      replace (b =? 10) with false by lia. replace (b =? 12) with false by lia.
+      replace (b =? 13) with false by lia. replace (b <? 32) with false by lia. reflexivity. }
+    destruct (c <? 2048); [|destruct (c <? 65536)]; cbn [flat_map];
+      rewrite ?Hb by lia; reflexivity.
+Qed.
+
+Lemma print_string_spec s : cps_ok s -> print_string (enc_str s) = spec_string s.
+Proof.
+  intros Hs. unfold print_string, spec_string, enc_str. f_equal. f_equal.
+  induction Hs as [|c s Hc Hs IH]; cbn [flat_map]; [reflexivity|].
+  rewrite flat_map_app, IH. f_equal. apply escape_enc_cp, Hc.
+Qed.
+
+(** * Integers *)
+Lemma dec_digits_spec fuel : forall n acc, dec_digits fuel n acc = spec_digits fuel n ++ acc.
+Proof.
+  induction fuel as [|f IH]; intros n acc; cbn [dec_digits spec_digits]; [reflexivity|].
+  destruct (n <? 10); [reflexivity|]. rewrite IH, <- app_assoc. reflexivity.
+Qed.
+
+Lemma print_Z_spec z : print_Z z = spec_int z.
+Proof.
+  destruct z; cbn [print_Z spec_int]; [reflexivity| |]; unfold print_N;
+    rewrite dec_digits_spec, app_nil_r; reflexivity.
+Qed.
+
+(** * Objects: BTreeMap insertion order = the spec's code-point sort. *)
+Section UInd.
+  Variable P : ujson -> Prop.
+  Hypothesis Hnull : P UNull.
+  Hypothesis Hbool : forall b, P (UBool b).
+  Hypothesis Hint : forall z, P (UInt z).
+  Hypothesis Hstr : forall s, P (UStr s).
+  Hypothesis Harr : forall l, Forall P l -> P (UArr l).
+  Hypothesis Hobj : forall m, Forall (fun kv => P (snd kv)) m -> P (UObj m).
+  Fixpoint ujson_ind' (u : ujson) : P u :=
+    match u with
+    | UNull => Hnull | UBool b => Hbool b | UInt z => Hint z | UStr s => Hstr s
+    | UArr l => Harr l ((fix go (l : list ujson) : Forall P l :=
+                  match l with [] => Forall_nil _ | x :: l' => Forall_cons _ (ujson_ind' x) (go l') end) l)
+    | UObj m => Hobj m ((fix go (m : list (list N * ujson)) : Forall (fun kv => P (snd kv)) m :=
+                  match m with [] => Forall_nil _ | kv :: m' => Forall_cons _ (ujson_ind' (snd kv)) (go m') end) m)
+    end.
+End UInd.
+
+Lemma join_sjoin l : join_with 44 l = sjoin l.
+Proof.
+  induction l as [|x l IH]; [reflexivity|].
+  destruct l as [|y l]; [reflexivity|].
+  change (join_with 44 (x :: y :: l)) with (x ++ 44 :: join_with 44 (y :: l)).
+  change (sjoin (x :: y :: l)) with (x ++ 44 :: sjoin (y :: l)). now rewrite IH.
+Qed.
+
+Lemma cp_insert_map {A B} (f : A -> B) k v (m : list (list N * A)) :
+  cp_insert k (f v) (List.map (fun kv => (fst kv, f (snd kv))) m) =
+  List.map (fun kv => (fst kv, f (snd kv))) (cp_insert k v m).
+Proof.
+  induction m as [|[k' v'] m IH]; cbn [List.map cp_insert fst snd]; [reflexivity|].
+  destruct (cp_ltb k k'); cbn [List.map fst snd]; [reflexivity|]. now rewrite IH.
+Qed.
+
+Lemma cp_sort_map {A B} (f : A -> B) (m : list (list N * A)) :
+  cp_sort (List.map (fun kv => (fst kv, f (snd kv))) m) =
+  List.map (fun kv => (fst kv, f (snd kv))) (cp_sort m).
+Proof.
+  induction m as [|[k v] m IH]; cbn [List.map cp_sort fold_right fst snd]; [reflexivity|].
+  fold (cp_sort m). fold (cp_sort (List.map (fun kv => (fst kv, f (snd kv))) m)).
+  rewrite IH. apply cp_insert_map.
+Qed.
+
+Lemma cp_insert_keys {A} k (v : A) m k' :
+  In k' (List.map fst (cp_insert k v m)) <-> k' = k \/ In k' (List.map fst m).
+Proof.
+  induction m as [|[k2 v2] m IH]; cbn [cp_insert List.map fst In].
+  - intuition.
+  - destruct (cp_ltb k k2); cbn [List.map fst In]; [intuition|]. rewrite IH. intuition.
+Qed.
+
+Lemma cp_sort_keys {A} (m : list (list N * A)) k' :
+  In k' (List.map fst (cp_sort m)) <-> In k' (List.map fst m).
+Proof.
+  induction m as [|[k v] m IH]; cbn [cp_sort fold_right List.map fst In]; [tauto|].
+  fold (cp_sort m). rewrite cp_insert_keys, IH. intuition.
+Qed.
+
+Definition G (kv : list N * ujson) : str * json := (enc_str (fst kv), to_json (snd kv)).
+
+Lemma insert_cp_insert k v (S : list (list N * ujson)) :
+  cps_ok k -> Forall (fun kv => cps_ok (fst kv)) S -> ~ In k (List.map fst S) ->
+  insert (enc_str k) (to_json v) (List.map G S) = List.map G (cp_insert k v S).
+Proof.
+  intros Hk HS Hnin. induction S as [|[k2 v2] S IH]; cbn [List.map insert cp_insert G fst snd]; [reflexivity|].
+  inversion HS as [|? ? Hk2 HS']; subst. cbn [fst] in Hk2.
+  rewrite (enc_str_ltb k k2 Hk Hk2). destruct (cp_ltb k k2); [reflexivity|].
+  rewrite (enc_str_eqb k k2 Hk Hk2).
+  destruct (str_eqb_spec k k2) as [->|Hne]; [exfalso; apply Hnin; now left|].
+  cbn [List.map G fst snd]. f_equal. apply IH; [assumption|]. intros Hin. apply Hnin. now right.
+Qed.
+
+Lemma cp_insert_ok {A} k (v : A) S :
+  cps_ok k -> Forall (fun kv => cps_ok (fst kv)) S -> Forall (fun kv => cps_ok (fst kv)) (cp_insert k v S).
+Proof.
+  intros Hk HS. induction HS as [|[k2 v2] S H2 HS IH]; cbn [cp_insert]; [repeat constructor; exact Hk|].
+  destruct (cp_ltb k k2); repeat constructor; assumption.
+Qed.
+
+Lemma nodupb_spec l : nodupb l = true -> NoDup l.
+Proof.
+  induction l as [|x l IH]; cbn [nodupb]; [constructor|]. intros H.
+  apply andb_true_iff in H as [H1 H2]. constructor; [|auto].
+  intros Hin. apply mem_str_In in Hin. now rewrite Hin in H1.
+Qed.
+
+Lemma fold_insert_is_sort (m : list (list N * ujson)) :
+  Forall (fun kv => cps_ok (fst kv)) m -> NoDup (List.map fst m) ->
+  fold_right (fun kv acc => insert (enc_str (fst kv)) (to_json (snd kv)) acc) [] m =
+  List.map G (cp_sort m) /\ Forall (fun kv => cps_ok (fst kv)) (cp_sort m).
+Proof.
+  induction m as [|[k v] m IH]; intros Hok Hnd; cbn [fold_right cp_sort List.map fst snd].
+  - split; [reflexivity|constructor].
+  - inversion Hok as [|? ? Hk Hok']; inversion Hnd as [|? ? Hnin Hnd']; subst. cbn [fst] in Hk.
+    destruct (IH Hok' Hnd') as [E Hs]. fold (cp_sort m). rewrite E. split.
+    + apply insert_cp_insert; [assumption|assumption|]. now rewrite cp_sort_keys.
+    + apply cp_insert_ok; assumption.
+Qed.
+
+Lemma In_cp_insert {A} (x : list N * A) k v S : In x (cp_insert k v S) -> x = (k, v) \/ In x S.
+Proof.
+  induction S as [|[k3 v3] S IHS]; cbn [cp_insert].
+  - intros [H|[]]; auto.
+  - destruct (cp_ltb k k3); cbn [In].
+    + intros [H|[H|H]]; auto.
+    + intros [H|H]; [auto|]. destruct (IHS H); auto.
+Qed.
+
+Lemma In_cp_sort {A} (x : list N * A) m : In x (cp_sort m) -> In x m.
+Proof.
+  induction m as [|[k2 v2] m IHm]; cbn [cp_sort fold_right]; [tauto|].
+  fold (cp_sort m). cbn [fst snd]. intros Hin.
+  destruct (In_cp_insert _ _ _ _ Hin) as [H|H]; [left; congruence|right; auto].
+Qed.
+
+(** The serializer applied to the stored form of a representable value is the spec's
+    canonical encoding of that value. *)
+Theorem print_is_spec u : uwfb u = true -> print (to_json u) = canonical_spec u.
+Proof.
+  induction u as [| b | z | s | l IH | m IH] using ujson_ind'; cbn [uwfb to_json print canonical_spec]; intros Hwf.
+  - reflexivity.
+  - destruct b; reflexivity.
+  - apply print_Z_spec.
+  - apply print_string_spec, forallb_scalar_ok, Hwf.
+  - f_equal. f_equal. rewrite join_sjoin. f_equal. rewrite map_map.
+    rewrite forallb_forall in Hwf. rewrite Forall_forall in IH.
+    apply map_ext_in. intros x Hx. apply IH; [exact Hx|apply Hwf, Hx].
+  - apply andb_true_iff in Hwf as [Hnd Hall]. rewrite forallb_forall in Hall.
+    assert (Hok : Forall (fun kv => cps_ok (fst kv)) m).
+    { apply Forall_forall. intros kv Hin. specialize (Hall kv Hin).
+      apply andb_true_iff in Hall as [Hk _]. apply forallb_scalar_ok, Hk. }
+    destruct (fold_insert_is_sort m Hok (nodupb_spec _ Hnd)) as [E Hs]. rewrite E.
+    f_equal. f_equal. rewrite join_sjoin. f_equal.
+    rewrite (cp_sort_map canonical_spec m), !map_map.
+    apply map_ext_in. intros [k v] Hin. cbn [G fst snd].
+    assert (Hk : cps_ok k) by (rewrite Forall_forall in Hs; exact (Hs _ Hin)).
+    rewrite (print_string_spec k Hk). f_equal. f_equal.
+    (* v is a member of m *)
+    assert (Hin' : In (k, v) m) by (apply In_cp_sort; exact Hin).
+    rewrite Forall_forall in IH. apply (IH _ Hin').
+    specialize (Hall _ Hin'). apply andb_true_iff in Hall as [_ Hv]. exact Hv.
+Qed.
+
+(** * Objects depend on the member *set* only: order irrelevant, last duplicate wins. *)
+Fixpoint last_assoc {A} (k : str) (m : list (str * A)) : option A :=
+  match m with
+  | [] => None
+  | (k', v) :: m' => match last_assoc k m' with
+                     | Some x => Some x
+                     | None => if str_eqb k k' then Some v else None
+                     end
+  end.
+
+Lemma fold_left_insert_sorted {A} (m : list (str * A)) acc :
+  sorted acc -> sorted (fold_left (fun a kv => insert (fst kv) (snd kv) a) m acc).
+Proof. revert acc; induction m as [|[k v] m IH]; intros acc H; cbn [fold_left]; [exact H|]. apply IH, sorted_insert, H. Qed.
+
+Lemma lookup_fold_left_insert {A} (m : list (str * A)) : forall acc k,
+  lookup k (fold_left (fun a kv => insert (fst kv) (snd kv) a) m acc) =
+  match last_assoc k m with Some x => Some x | None => lookup k acc end.
+Proof.
+  induction m as [|[k2 v2] m IH]; intros acc k; cbn [fold_left last_assoc fst snd]; [reflexivity|].
+  rewrite IH, lookup_insert. destruct (last_assoc k m); [reflexivity|].
+  destruct (str_eqb k k2); reflexivity.
+Qed.
+
+Definition conv_members :=
+  fix go (m : list (str * raw)) : list (str * option json) :=
+    match m with [] => [] | (k, x) :: m' => (k, to_canonical x) :: go m' end.
+
+Lemma conv_members_last k m :
+  last_assoc k (conv_members m) = option_map to_canonical (last_assoc k m).
+Proof.
+  induction m as [|[k2 x2] m IH]; cbn [conv_members last_assoc]; [reflexivity|].
+  rewrite IH. destruct (last_assoc k m); cbn [option_map]; [reflexivity|].
+  destruct (str_eqb k k2); reflexivity.
+Qed.
+
+(** Two object texts with the same final binding for every key (any member order, any
+    shadowed duplicates) convert to the same canonical value. *)
+Theorem object_depends_on_bindings_only m1 m2 :
+  (forall k, last_assoc k m1 = last_assoc k m2) ->
+  to_canonical (RObj m1) = to_canonical (RObj m2).
+Proof.
+  intros H. cbn [to_canonical]. fold conv_members. f_equal. f_equal.
+  apply sorted_ext; try (apply fold_left_insert_sorted; exact I).
+  intros k. rewrite !lookup_fold_left_insert, !conv_members_last, H. reflexivity.
+Qed.
+
+Lemma last_assoc_perm {A} (m1 m2 : list (str * A)) k :
+  Permutation m1 m2 -> NoDup (List.map fst m1) -> last_assoc k m1 = last_assoc k m2.
+Proof.
+  intros Hp Hnd.
+  assert (Hchar : forall (m : list (str * A)), NoDup (List.map fst m) ->
+            forall v, last_assoc k m = Some v <-> In (k, v) m).
+  { clear. induction m as [|[k2 v2] m IH]; intros Hnd v; cbn [last_assoc In]; [split; [discriminate|tauto]|].
+    cbn [List.map fst] in Hnd. inversion Hnd as [|? ? Hnin Hnd']; subst.
+    pose proof (IH Hnd') as IHm. destruct (last_assoc k m) as [x|].
+    - split.
+      + intros [= <-]. right. now apply IHm.
+      + intros [Eq|Hin]; [|f_equal; apply IHm in Hin; congruence].
+        assert (Hx : In (k, x) m) by (apply IHm; reflexivity).
+        apply (in_map fst) in Hx. cbn [fst] in Hx.
+        inversion Eq; subst. exfalso. exact (Hnin Hx).
+    - dse k k2.
+      + split; [intros [= <-]; now left|]. intros [Eq|Hin]; [congruence|].
+        apply IHm in Hin. congruence.
+      + split; [discriminate|]. intros [Eq|Hin]; [congruence|]. apply IHm in Hin. congruence. }
+  assert (Hnd2 : NoDup (List.map fst m2)).
+  { eapply Permutation_NoDup; [apply Permutation_map; exact Hp|exact Hnd]. }
+  destruct (last_assoc k m1) as [v|] eqn:E1.
+  - apply (Hchar _ Hnd) in E1. symmetry. apply (Hchar _ Hnd2). eapply Permutation_in; eauto.
+  - destruct (last_assoc k m2) as [v|] eqn:E2; [|reflexivity].
+    apply (Hchar _ Hnd2) in E2. apply Permutation_sym in Hp.
+    pose proof (Permutation_in _ Hp E2) as Hin. apply (Hchar _ Hnd) in Hin. congruence.
+Qed.
+
+Theorem key_order_irrelevant m1 m2 :
+  Permutation m1 m2 -> NoDup (List.map fst m1) ->
+  to_canonical (RObj m1) = to_canonical (RObj m2).
+Proof.
+  intros Hp Hnd. apply object_depends_on_bindings_only. intros k. now apply last_assoc_perm.
+Qed.
+
+Theorem duplicate_last_wins m k x1 x2 :
+  to_canonical (RObj (m ++ [(k, x1); (k, x2)])) = to_canonical (RObj (m ++ [(k, x2)])).
+Proof.
+  apply object_depends_on_bindings_only. intros k'.
+  induction m as [|[k3 v3] m IH]; cbn [app last_assoc].
+  - destruct (str_eqb k' k); reflexivity.
+  - now rewrite IH.
+Qed.
